@@ -351,4 +351,151 @@ theorem indexOf_bounds [DecidableEq α] (l : List α) (x : α) (j : Nat) (hj : j
   · rw [h1] at h; exact absurd (by decide) h
   · simp at h2; omega
 
+
+
+/-! ### members that never reallocate -/
+
+theorem construct_moved {s s' : BS α} {i : Nat} {v : α} (h : construct s i v = some s') : s'.moved = s.moved ∧ s'.cells.length = s.cells.length := by
+  unfold construct at h; split at h
+  · injection h with h; subst h; simp
+  · cases h
+
+theorem destroy_moved {s s' : BS α} {i : Nat} (h : destroy s i = some s') : s'.moved = s.moved ∧ s'.cells.length = s.cells.length := by
+  unfold destroy at h; split at h
+  · injection h with h; subst h; simp
+  · cases h
+
+theorem assignCell_moved {s s' : BS α} {i : Nat} {v : α} (h : assignCell s i v = some s') : s'.moved = s.moved ∧ s'.cells.length = s.cells.length := by
+  unfold assignCell at h; split at h
+  · injection h with h; subst h; simp
+  · cases h
+
+theorem relocate_moved {s s' : BS α} {d r k : Nat} (h : relocate s d r k = some s') : s'.moved = s.moved := by
+  unfold relocate at h
+  split at h
+  · simp only [] at h; split at h
+    · injection h with h; subst h; rfl
+    · cases h
+  · cases h
+
+theorem constructN_moved (d : α) : ∀ (k : Nat) (s s' : BS α) (i : Nat), constructN d k s i = some s' →
+    s'.moved = s.moved ∧ s'.cells.length = s.cells.length := by
+  intro k; induction k with
+  | zero => intro s s' i h; simp [constructN] at h; subst h; exact ⟨rfl, rfl⟩
+  | succ k ih =>
+    intro s s' i h
+    rw [constructN] at h
+    cases h1 : construct s i d with
+    | none => rw [h1] at h; simp at h
+    | some s1 =>
+      rw [h1, Option.bind_some] at h
+      have a := construct_moved h1; have b := ih s1 s' (i + 1) h
+      exact ⟨b.1.trans a.1, b.2.trans a.2⟩
+
+theorem destroyN_moved : ∀ (k : Nat) (s s' : BS α) (i : Nat), destroyN k s i = some s' →
+    s'.moved = s.moved ∧ s'.cells.length = s.cells.length := by
+  intro k; induction k with
+  | zero => intro s s' i h; simp [destroyN] at h; subst h; exact ⟨rfl, rfl⟩
+  | succ k ih =>
+    intro s s' i h
+    rw [destroyN] at h
+    cases h1 : destroy s i with
+    | none => rw [h1] at h; simp at h
+    | some s1 =>
+      rw [h1, Option.bind_some] at h
+      have a := destroy_moved h1; have b := ih s1 s' (i + 1) h
+      exact ⟨b.1.trans a.1, b.2.trans a.2⟩
+
+theorem assignFrom_moved : ∀ (xs : List α) (s s' : BS α) (off : Nat), assignFrom xs s off = some s' → s'.moved = s.moved := by
+  intro xs; induction xs with
+  | nil => intro s s' off h; simp [assignFrom] at h; subst h; rfl
+  | cons x xs ih =>
+    intro s s' off h
+    rw [assignFrom] at h
+    cases h1 : assignCell s off x with
+    | none => rw [h1] at h; simp at h
+    | some s1 =>
+      rw [h1, Option.bind_some] at h
+      exact (ih s1 s' (off + 1) h).trans (assignCell_moved h1).1
+
+theorem resize_moved (E : Elem α) {s s' : BS α} {m : Nat} (hm : m ≤ s.cells.length) (h : resize E s m = some s') :
+    s'.moved = s.moved := by
+  unfold resize at h
+  have hr : reserve E s m = s := by unfold reserve; simp only []; rw [if_pos hm]
+  simp only [hr] at h
+  split at h
+  · cases h1 : constructN E.dflt (m - s.n) s s.n with
+    | none => rw [h1] at h; simp at h
+    | some s1 => rw [h1] at h; simp at h; subst h; exact (constructN_moved _ _ _ _ _ h1).1
+  · split at h
+    · cases h1 : destroyN (s.n - m) s m with
+      | none => rw [h1] at h; simp at h
+      | some s1 => rw [h1] at h; simp at h; subst h; exact (destroyN_moved _ _ _ _ h1).1
+    · injection h with h; subst h; rfl
+
+theorem remove_moved (E : Elem α) {s s' : BS α} {i c : Nat} (hn : s.n ≤ s.cells.length) (h : remove E s i c = some s') :
+    s'.moved = s.moved := by
+  unfold remove at h
+  simp only [] at h
+  split at h
+  · injection h with h; subst h; rfl
+  · cases h1 : destroyN c s i with
+    | none => rw [h1] at h; simp at h
+    | some s1 =>
+      rw [h1, Option.bind_some] at h
+      have a := destroyN_moved _ _ _ _ h1
+      cases h2 : relocate s1 i (i + c) (s.n - i - c) with
+      | none => rw [h2] at h; simp at h
+      | some s2 =>
+        rw [h2, Option.bind_some] at h
+        have b := relocate_moved h2
+        have hlen2 : s2.cells.length = s1.cells.length := by
+          unfold relocate at h2
+          split at h2
+          · rename_i hb
+            simp only [] at h2; split at h2
+            · injection h2 with h2; subst h2
+              simp only [writeAt, List.length_append, List.length_take, List.length_drop, List.length_replicate]
+              omega
+            · cases h2
+          · cases h2
+        have c' := resize_moved E (s := { s2 with n := s2.n - c }) (m := s.n - c) (by simp only []; omega) h
+        rw [c']; exact b.trans a.1
+
+theorem removeIfAux_moved (f : α → Bool) : ∀ (r : Nat) (s : BS α) (i j n : Nat) (res : BS α × Nat),
+    removeIfAux f r s i j n = some res → res.1.moved = s.moved := by
+  intro r; induction r with
+  | zero => intro s i j n res h; simp [removeIfAux] at h; subst h; rfl
+  | succ r ih =>
+    intro s i j n res h
+    rw [removeIfAux] at h
+    cases h1 : readCell s i with
+    | none => rw [h1] at h; simp at h
+    | some v =>
+      rw [h1, Option.bind_some] at h
+      split at h
+      · cases h2 : destroy s i with
+        | none => rw [h2] at h; simp at h
+        | some s1 => rw [h2, Option.bind_some] at h; exact (ih _ _ _ _ _ h).trans (destroy_moved h2).1
+      · cases h2 : relocate s j i 1 with
+        | none => rw [h2] at h; simp at h
+        | some s1 => rw [h2, Option.bind_some] at h; exact (ih _ _ _ _ _ h).trans (relocate_moved h2)
+
+/-- `op` keeps the block where it is, on the blocks that hold `l` -/
+def NoMoveAt (op : BS α → Option (BS α)) (l : List α) : Prop :=
+  ∀ s k s', Rep s l k → op s = some s' → s'.moved = s.moved
+
+theorem rep_n_le {s : BS α} {l : List α} {k : Nat} (h : Rep s l k) : s.n ≤ s.cells.length := by
+  rw [h.1, h.2.1, cellsOf_length]; omega
+
+theorem pGuard_false_of_nomove {st : St α} {sp : Sp α} {f : Nat → Nat} (hsim : Sim st sp f) {h : Nat}
+    (hocc : st.occ h = true) {op : BS α → Option (BS α)} (hnm : NoMoveAt op (sp.get h)) : pGuard st h op = false := by
+  obtain ⟨b, r, k, hb, hbo, hrep, _, _⟩ := read_sim hsim hocc
+  unfold pGuard; rw [hbo]; simp only []
+  cases hop : op (r.toBS st.live) with
+  | none => rfl
+  | some s' =>
+    simp only []
+    rw [hnm _ k s' hrep hop]; rfl
+
 end AslProofs.Arr
